@@ -854,6 +854,8 @@ let handle (op : string) (a : string array) : string =
     ^ " " ^ String.concat " " (List.map event_s (cpy_events s))
   | "cpyfmt" -> cres_s (cpy_format (arg_str a.(0)) (fst (arg_val a 1)))
   | "pybrace" -> pybrace_res_s (pybrace_parse_gen (arg_str a.(0)))
+  | "pydomain" -> let (a, b) = pybrace_domain_gen (arg_str a.(0)) in
+    (if a then "flat=1" else "flat=0") ^ (if b then " guard=1" else " guard=0")
   | "cpymarkup" -> (match cpy_markup (arg_str a.(0)) with
                     | None -> "err"
                     | Some l -> "ok " ^ String.concat " " (List.map mitem_s l))
